@@ -198,6 +198,8 @@ def xml_ok(s, engine):
 def build(run):
     run.outside += ["'removing the tags leaves exactly the words of TTS=None' (rule interpreter)", "bookmark ids naming nodes of the expression (XPath evaluation)",
                     "text inserted after <spell>/<say-as> is assumed free of '<' and '&' (it is the text of a token chosen by rules)"]
+    crate_d, lemma_d = dispatch_lemma(run)
+    run.kani(crate_d, [lemma_d], timeout=300)
     src = slicer.Source.get("src/tts.rs")
     imp = src.find("impl TTS")
     fns = {"SSML": imp.find("fn get_string_ssml"), "SAPI5": imp.find("fn get_string_sapi5")}
@@ -406,3 +408,60 @@ def _loop(run, lid, query, get, witness, claim):
     for i, c in enumerate(COMMANDS):
         run.smt("%s.%s" % (lid, c), query + "\n(assert (= cmd %d))" % i, get=get, witness=witness, claim=claim, timeout=30,
                 vacuity=query[:query.index("; LEMMA")] + "\n(assert (distinct start \"\"))\n(assert (= cmd %d))" % i, vacuous_ok=True)
+
+
+# ======================================================================================================================
+# K-C13-d: every place of impl TTS that dispatches on the engine sends each engine to ITS formatter (no SSML tag under SAPI5, ...)
+DISPATCH_SHIM = r"""
+#[derive(Clone, Copy, PartialEq)] pub enum TTS { None, SSML, SAPI5 }
+#[allow(unused_variables, dead_code)]
+impl TTS {
+    fn get_string_none<A, B, C>(&self, _a: A, _b: B, _c: C) -> u8 { 0 }
+    fn get_string_ssml<A, B, C>(&self, _a: A, _b: B, _c: C) -> u8 { 1 }
+    fn get_string_sapi5<A, B, C>(&self, _a: A, _b: B, _c: C) -> u8 { 2 }
+    fn merge_pauses_none<A>(&self, _a: A) -> u8 { 0 }
+    fn merge_pauses_ssml<A>(&self, _a: A) -> u8 { 1 }
+    fn merge_pauses_sapi5<A>(&self, _a: A) -> u8 { 2 }
+SITE_FNS
+}
+HARNESS(engine_dispatch_is_consistent, 2) {
+    let k = sym::below(3);
+    let e = match k { 0 => TTS::None, 1 => TTS::SSML, _ => TTS::SAPI5 };
+    let site = sym::below(NSITES);
+    let r = match site {
+SITE_ARMS
+        _ => k as u8,
+    };
+    cover!(k == 2 && site == NSITES - 1, "SAPI5 at the last site reachable");
+    assert!(r == k as u8, "an engine is sent to the formatter of a different engine (tags of the wrong vocabulary)");
+}
+"""
+
+
+def api_dispatch(vals=None, out=None):
+    q = "<math><mi>x</mi><mo>=</mo><mfrac><mrow><mo>-</mo><mi>b</mi><mo>&#xB1;</mo><msqrt><msup><mi>b</mi><mn>2</mn></msup><mo>-</mo><mn>4</mn><mi>a</mi><mi>c</mi></msqrt></mrow><mrow><mn>2</mn><mi>a</mi></mrow></mfrac></math>"
+    res = mcprobe([("pref", "TTS SAPI5"), ("mathml", q), "speech", ("pref", "TTS SSML"), ("mathml", q), "speech"])
+    bad = res[2][0] != "OK" or "<break" in res[2][1] or "<prosody" in res[2][1] or res[5][0] != "OK" or "<silence" in res[5][1] or "<pitch" in res[5][1]
+    return bad, {"script": "TTS=SAPI5 / SSML; quadratic formula; get_spoken_text must only hold tags of the selected engine", "sapi5": res[2], "ssml": res[5]}
+
+
+def dispatch_lemma(run):
+    src = slicer.Source.get("src/tts.rs")
+    imp = src.find("impl TTS")
+    sites = [sp for sp in src.find_bracketed("match self {", within=imp) if re.search(r"\b(get_string|merge_pauses)_(none|ssml|sapi5)\s*\(", sp.text)]
+    if not sites:
+        raise slicer.SliceError("no engine dispatch found in impl TTS")
+    run.uses(*sites)
+    keep = {"match", "self", "TTS", "None", "SSML", "SAPI5", "true", "false", "return", "_"}
+    fns, arms = [], []
+    for k, sp in enumerate(sites):
+        idents = sorted(set(t.text for t in slicer.lex(sp.text) if t.kind == "ident") - keep - set(re.findall(r"\b(?:get_string|merge_pauses)_\w+", sp.text)))
+        fns.append("    fn site_%d(&self) -> u8 { %s (%s) }" % (k, " ".join("let %s = ();" % i for i in idents), sp.text))
+        arms.append("        %d => e.site_%d()," % (k, k))
+    body = DISPATCH_SHIM.replace("SITE_FNS", "\n".join(fns)).replace("SITE_ARMS", "\n".join(arms)).replace("NSITES", str(len(sites)))
+    crate = kani_run.Crate("c13dispatch", body)
+    run.bound("K-C13-d", "all %d `match self` expressions of impl TTS that call get_string_* / merge_pauses_* (start tag, end tag, computed pause, pause merging), each engine" % len(sites))
+    run.assume("the formatters are replaced by stand-ins that return the index of their engine; the variables passed to them by unit values")
+    return crate, dict(id="K-C13-d.engine_dispatch_is_consistent", harness="engine_dispatch_is_consistent", api=lambda v, o: api_dispatch(),
+                       role=lambda v, o: "wrong-engine-formatter", covers=["SAPI5 at the last site reachable"],
+                       claim="at every dispatch site None / SSML / SAPI5 reach get_string_none|ssml|sapi5 resp. merge_pauses_none|ssml|sapi5")
